@@ -3,6 +3,7 @@ from checks.storegen import World, NAMES, PLAIN, with_hdump
 from vlib.tok import f64, s as S, lst
 from checks import C04
 ID = 'C02'
+TECHNIQUE = "Lean 4 proof over a hand-written store model + a table translated from the source on every run (the container groups the backend constructors open: constructors agree, the model's names are the backend's) + differential correspondence (trace validation) with the built library"
 THEOREMS = ['Nix.Containers.constructors_agree', 'Nix.Containers.opened_by_both_constructors', 'Nix.Containers.model_container_names', 'Nix.St.newFile_rootOK', 'Nix.St.reopenRW_id', 'Nix.St.reopen_observe_eq', 'Nix.St.reopen_then_continue', 'Nix.St.setAttr_rootOK',
             'Nix.St.newFile_sys', 'Nix.St.apply_sys', 'Nix.St.run_sys', 'Nix.St.Sys.rootOK', 'Nix.St.reopen_after_any_history', 'Nix.St.reopen_inside_any_history']
 LEAN_MODULES = ['NixModel.Props.C02Containers', 'NixModel.Gen.Containers', 'NixModel.Props.C02', 'NixModel.Proofs.SysInv', 'NixModel.Proofs.SysOps', 'NixModel.Proofs.SysHistory']
